@@ -383,6 +383,11 @@ func (p *sparser) unary() Expr {
 		p.next()
 		return &EUnary{Op: "-", X: p.unary()}
 	}
+	if p.isOp("&") {
+		// address of a package-level variable
+		p.next()
+		return &EUnary{Op: "&", X: p.unary()}
+	}
 	return p.postfix(p.primary())
 }
 
